@@ -1,6 +1,6 @@
 (** Extraction of the executable model and the oracles to OCaml (ExtrOcamlBasic only). *)
 From Coq Require Import Extraction ExtrOcamlBasic NArith List.
-From ADF Require Import Gen.GenLeaf Gen.GenFlags Base.Maps Spec.Spec Bdd.Store Adf.Iter Adf.Native Adf.NoGood Adf.Search Adf.Bio Front.Parser Front.Cli.
+From ADF Require Import Gen.GenLeaf Gen.GenFlags Base.Maps Spec.Spec Bdd.Store Adf.Iter Adf.Native Adf.NoGood Adf.Search Adf.Bio Front.Parser Front.Cli Server.Model Server.Instance.
 Extraction Language OCaml.
 Extraction "extracted/model.ml"
   Store.init Store.mk_node Store.restrict Store.ite Store.variable Store.constant
@@ -19,5 +19,6 @@ Extraction "extracted/model.ml"
   Bio.bio_grounded Bio.bio_complete Bio.bio_stable Bio.bio_stable_rew Bio.stable_candidates
   Bio.from_biodivine_vector Bio.bridge_all Bio.wf_dump
   Cli.cli_run Cli.wired
+  Instance.run_events_cur Instance.handle_cur Instance.complete_cur Model.s0
   Parser.parse Parser.varsort_lexi Parser.resolve_acs Parser.formula_p
   N.add N.mul N.div_eucl N.of_nat N.to_nat N.eqb N.ltb N.leb.
